@@ -23,10 +23,90 @@ func init() {
 	gens["c05-golden"] = c05Golden
 	gens["c05-typenames"] = c05TypeNames
 	gens["c05-long"] = c05Long
+	gens["c05-padding"] = c05Padding
+	gens["c05-multikey"] = c05MultiKey
+	gens["c05-runes"] = c05Runes
 }
 
 // c05Long: LONG values - fixed-size buffers and limits inside the parser sit far above the
 // token alphabet (sun_path is 108 bytes, sockaddr_storage 128, PATH_MAX 4096, a record 8970).
+// c05Padding: a header (or a header and a little text) followed by RUNS of one padding byte of every
+// length 0..80 (netlink payloads are NUL padded; logs end in blanks / CR LF), followed by every
+// sequence of <=2 bytes over {NUL, blank, TAB, LF, 'a', '='}: offsets computed on one form of the text
+// and applied to another (trimmed, padded) form go out of range only for particular run lengths.
+func c05Padding(c *enumx.Ctx) {
+	pads := []string{"\x00", " ", "\t", "\n", "\r", "\r\n", "\x00 ", " \x00"}
+	tails := []string{""}
+	tb := []string{"\x00", " ", "\t", "\n", "a", "="}
+	for _, a := range tb {
+		tails = append(tails, a)
+		for _, b := range tb {
+			tails = append(tails, a+b)
+		}
+	}
+	heads := []string{"audit(1700000000.123:42)", "audit(1.2:3)", "audit(1700000000.123:42):", "audit(1700000000.123:42): ", "audit(1700000000.123:42): a=b", "audit(1.2:3):", "audit(1700000000.123:42): msg='a=b'"}
+	for _, h := range heads {
+		for _, p := range pads {
+			for k := 0; k <= 80; k++ {
+				for _, t := range tails {
+					if !c.Mine() {
+						continue
+					}
+					raw := h + strings.Repeat(p, k) + t
+					parseBody(c, 1300, raw)
+					if k%8 == 0 {
+						parseBody(c, 1112, raw)
+						parseLine(c, "type=SYSCALL msg="+raw)
+					}
+				}
+			}
+		}
+	}
+	c.Sample("Parse(1300, header + 27 x NUL + \" \\x00\") : Data/Tags/ToMapStr on a record that is all padding")
+}
+
+// c05MultiKey: the key field as the kernel writes several keys (hex, 0x01 separated): every sequence
+// of <=4 keys over {a, b, net, ""} incl. repeated and empty ones - Tags() twice, and again after
+// other messages.
+func c05MultiKey(c *enumx.Ctx) {
+	keys := []string{"a", "b", "net", ""}
+	var rec func(cur []string)
+	rec = func(cur []string) {
+		if len(cur) > 0 && c.Mine() {
+			hex := strings.ToUpper(fmt.Sprintf("%x", strings.Join(cur, "\x01")))
+			for _, t := range []uint16{1300, 1305, 1326} {
+				parseBody(c, t, "audit(1700000000.123:42): arch=c000003e syscall=2 success=yes exit=0 items=0 pid=1 auid=0 uid=0 key="+hex)
+			}
+			parseBody(c, 1300, "audit(1700000000.123:42): pid=1 key=\""+strings.Join(cur, ",")+"\" uid=0")
+		}
+		if len(cur) == 4 {
+			return
+		}
+		for _, k := range keys {
+			rec(append(append([]string{}, cur...), k))
+		}
+	}
+	rec(nil)
+	c.Sample("Parse(1300, ... key=6E6574016E65740162) : keys net,net,b - Tags() twice")
+}
+
+// c05Runes: every fragment of the shared multi-byte menu inside keys, values, quoted values and
+// msg='...' blocks of every record-type class.
+func c05Runes(c *enumx.Ctx) {
+	shapes := []string{"a=%s", "a=\"%s\"", "%s=b", "a=b %s c=d", "msg='op=x acct=\"%s\" res=success'", "exe=\"/bin/%s\" key=\"%s\"", "name=%s", "%s"}
+	for _, r := range enumx.HostileRunes {
+		for _, sh := range shapes {
+			for _, t := range typeClasses {
+				if !c.Mine() {
+					continue
+				}
+				body := strings.ReplaceAll(sh, "%s", r)
+				parseBody(c, t, "audit(1700000000.123:42): "+body)
+			}
+		}
+	}
+}
+
 func c05Long(c *enumx.Ctx) {
 	lens := []int{60, 100, 106, 107, 108, 109, 110, 111, 126, 127, 128, 129, 255, 256, 257, 1023, 1024, 1025, 4095, 4096, 4097, 8969, 8970, 8971, 65535, 65536, 70000}
 	if c.Tier == "thorough" {
